@@ -87,7 +87,14 @@ def concrete_search(qn, c: S.Contract, pid, rng, budget, want=None, collect_path
     mism = 0
     t_end = time.time() + budget["seconds"]
     while n < budget["runs"] and time.time() < t_end:
-        inp = c.gen(rng)
+        try:
+            inp = c.gen(rng)
+        except Exception as ex:
+            # several generators drive the *real* code (e.g. decode a prefix) to build states: if that code raises
+            # (NUMBA_BOUNDSCHECK=1 turns an out-of-range access into IndexError) this is a finding, not a checker fault
+            v = conc.Violation("real-raises", "while-generating-inputs", repr(ex) + " | " + traceback.format_exc(limit=2)[-300:])
+            v.fn, v.props = qn, None
+            return n, v, {}, mism
         if inp is None:
             continue
         n += 1
@@ -126,7 +133,10 @@ def concrete_search(qn, c: S.Contract, pid, rng, budget, want=None, collect_path
     for _ in range(12):
         if time.time() > t_end + 10:
             break
-        inp = c.gen(rng)
+        try:
+            inp = c.gen(rng)
+        except Exception:
+            break
         if inp is None:
             continue
         saved = copy_inputs(inp)
